@@ -118,12 +118,35 @@ class FnSummary:
         self.complete = True   # False if a recursive callee was not expanded
 
 
+_known = None
+
+
+def known_functions():
+    """oracle/known_functions.json: wildcard opacity applies to the functions of the reviewed tree only (new helpers are expanded)"""
+    global _known
+    if _known is None:
+        import json, os
+        from . import common
+        p = os.path.join(common.VERIF, "oracle", "known_functions.json")
+        _known = set(json.load(open(p))["functions"]) if os.path.exists(p) else None
+    return _known
+
+
 class Analyzer:
+    def is_known(self, res):
+        if self.known is None:
+            return True
+        b = self.prog.bodies.get(res)
+        if b is not None and (b.kind == "Closure" or b.file == "a2lfile/src/specification.rs"):
+            return True
+        return mir.strip_generics(res) in self.known
+
     def __init__(self, prog, opaque=()):
         self.prog = prog
         self.summaries = {}
         self.in_progress = set()
         self.opaque = [re.compile(p) for p in opaque]   # local callees NOT to expand (kept as call events)
+        self.known = known_functions()
 
     # ------------------------------------------------------------------ substitution
     def subst(self, t, binding):
@@ -351,7 +374,7 @@ class Analyzer:
                     pl = mir.op_place(a)
                     if pl is not None and not pl["p"] and pl["l"] in closure_of:
                         cl_args.append((ai, pl["l"], closure_of[pl["l"]]))
-                if res in self.prog.bodies and "itemlist::ItemList" not in res and not any(rx.match(res) for rx in self.opaque):
+                if res in self.prog.bodies and "itemlist::ItemList" not in res and not (any(rx.match(res) for rx in self.opaque) and self.is_known(res)):
                     sub = self.summary(res)
                     if sub is None:
                         S.complete = False
